@@ -105,6 +105,7 @@ def check(chk):
     _rbw(chk, persistent)
     _isolate(chk)
     _alias(chk)
+    _cache(chk)
     _query_mutates(chk)
     _borrowed(chk)
     _refit_borrowed(chk)
@@ -562,6 +563,48 @@ def _borrowed(chk):
             chk.check(src is None, "OWN.borrowed.mutate", fn, st,
                       why=f"{src} is modified in place: fitting must not change the user's objects or another model's results")
     chk.info["ownership_sinks_examined"] = n
+
+
+def _cache(chk, rule="HIST.cache"):
+    """a value derived from fitted state and memoised on the object (functools.cached_property / lru_cache / cache on a
+    method, or a hand-written `if self._x is None: self._x = ...`) survives a refit unless fit invalidates it: the maps
+    that read the memo then belong to the previous fit"""
+    pm = chk.pm
+    n = 0
+    for cls in pm.classes.values():
+        fitted = set()
+        for nm in ("fit", "_fit_algorithm", "fit_transform"):
+            m = cls.resolve(nm)
+            if m is not None and m.cls is not None:
+                for g in self_closure(pm, cls, m):
+                    for st in walk_no_nested(g.node):
+                        tg = st.targets if isinstance(st, ast.Assign) else [st.target] if isinstance(st, (ast.AnnAssign, ast.AugAssign)) else []
+                        for t in tg:
+                            for tt in flatten_targets(t):
+                                if is_self_attr(tt):
+                                    fitted.add(tt.attr)
+        if not fitted:
+            continue
+        for m in cls.methods.values():
+            decos = {(dotted(d.func) if isinstance(d, ast.Call) else dotted(d)) or "" for d in m.node.decorator_list}
+            cached = any(d.split(".")[-1] in ("cached_property", "lru_cache", "cache") for d in decos)
+            if not cached:
+                continue
+            n += 1
+            reads = {x.attr for x in walk_no_nested(m.node) if isinstance(x, ast.Attribute) and is_self_attr(x) and isinstance(x.ctx, ast.Load)} & fitted
+            # invalidated by fit?  (del self.<name> / self.__dict__.pop("<name>") / <method>.cache_clear())
+            inval = False
+            for nm in ("fit", "_fit_algorithm"):
+                f2 = cls.resolve(nm)
+                if f2 is None:
+                    continue
+                txt = " ".join(norm(g.node) for g in self_closure(pm, cls, f2))
+                if f"del self.{m.name}" in txt or f"pop('{m.name}'" in txt or f"{m.name}.cache_clear" in txt:
+                    inval = True
+            chk.check(not reads or inval, rule, m, m.node, construct=f"{cls.name}.{m.name}: memoised value of fitted state {sorted(reads)}", context=cls.name,
+                      why=f"{cls.name}.{m.name} memoises a value computed from {sorted(reads)}, which fit() re-assigns, and fit() does not invalidate the memo: after a refit "
+                          "the methods that use it still work with the previous fit's value")
+    chk.ok(rule, "xeofs", None, construct=f"<{n} memoised methods examined>", nontrivial=False)
 
 
 def alias_sites(pm):
